@@ -411,7 +411,13 @@ func (em *emitter) assignValuesToAddresses(addresses []address, values []ast.Exp
 		types := make([]reflect.Type, len(values))
 		ks := make([]bool, len(values))
 		for i := range values {
-			types[i] = em.typ(values[i])
+			// A value is emitted with the type of its target, as for an
+			// assignment of a single value: a value assigned to a target of
+			// interface type is converted to that type.
+			types[i] = addresses[i].targetType()
+			if types[i] == nil {
+				types[i] = em.typ(values[i])
+			}
 			regs[i] = em.fb.newRegister(types[i].Kind())
 			em.emitExprR(values[i], types[i], regs[i])
 		}
